@@ -20,6 +20,7 @@ Info: Typical Usage
 
 from __future__ import annotations
 
+import contextlib
 import dataclasses
 import sys
 import warnings
@@ -131,6 +132,18 @@ def slotted(  # noqa: C901
         new_cls = cls.__class__(cls.__name__, cls.__bases__, cls_dict)
         new_cls.__qualname__ = cls.__qualname__
         new_cls.__module__ = cls.__module__
+        # Methods using zero-argument `super()` (or `__class__`) close over the class
+        #   they were defined in: point that cell at the class which replaces it.
+        for member in cls_dict.values():
+            if isinstance(member, property):
+                funcs = (member.fget, member.fset, member.fdel)
+            else:
+                funcs = (getattr(member, "__func__", member),)
+            for func in funcs:
+                for cell in getattr(func, "__closure__", None) or ():
+                    with contextlib.suppress(ValueError):  # An empty cell.
+                        if cell.cell_contents is cls:
+                            cell.cell_contents = new_cls
 
         return new_cls
 
